@@ -20,6 +20,8 @@ contract("monkeytype.typing:is_list", props=["C04"], theories=TH,
 
 contract("monkeytype.typing:make_typed_dict", props=["C04", "C06", "C07"], theories=TH,
          params={"required_fields": "Opt[Dict[str,Ty]]", "optional_fields": "Opt[Dict[str,Ty]]"}, result="Ty", mode="assumed",
+         # the function asserts that required and optional keys are disjoint
+         requires={"disjoint": "required_fields is None or optional_fields is None or forall(required_fields, lambda key: not has(optional_fields, key))"},
          ensures={"post:def": "result is TD_(ite(required_fields is None or len(required_fields) == 0, EMPTY_DICT_, required_fields),"
                               " ite(optional_fields is None or len(optional_fields) == 0, EMPTY_DICT_, optional_fields))"},
          note="builds nested mypy_extensions.TypedDict classes: the TD_ constructor of T-TYPES is its specification")
@@ -33,16 +35,90 @@ contract("monkeytype.typing:is_anonymous_typed_dict", props=["C04", "C06", "C07"
          note="is_typed_dict(typ) and typ.__name__ == DUMMY_NAME; kind TD is defined as exactly that (T-TYPES)")
 
 _SUP = "forall(types, lambda t: forall_val(lambda v: implies(mem(v, t), mem(v, result))))"
-contract("monkeytype.typing:shrink_typed_dict_types", props=["C04", "C05", "C06"], theories=TH, mode="assumed",
+_REQ = "td_req(nth(typed_dicts, {j}))"
+_OPT = "td_opt(nth(typed_dicts, {j}))"
+_KV = "key_value_types_dict"
+_EO = "existing_optional_fields"
+_STD_LOOPS = {
+    # outer loop: every TypedDict seen so far has contributed its required field types to kv[key] and its optional (key, type) pairs to eo
+    0: {"iter": "typed_dicts",
+        "inv": {
+            "dictlike": "is_dictlike_(%s)" % _KV,
+            "len": "forall(%s, lambda key: len(lookup(%s, key)) >= 1 and len(lookup(%s, key)) <= _i)" % (_KV, _KV, _KV),
+            "count": "forall(%s, lambda key: (len(lookup(%s, key)) == _i) == forall(range_(0, _i), lambda j: has(%s, key)))" % (_KV, _KV, _REQ.format(j="j")),
+            "cover": "forall(range_(0, _i), lambda j: forall(%s, lambda key: has(%s, key) and has(lookup(%s, key), lookup(%s, key))))" % (_REQ.format(j="j"), _KV, _KV, _REQ.format(j="j")),
+            "from": "forall(%s, lambda key: forall(lookup(%s, key), lambda x: exists(range_(0, _i), lambda j: has(%s, key) and x is lookup(%s, key))))" % (_KV, _KV, _REQ.format(j="j"), _REQ.format(j="j")),
+            "eo-cover": "forall(range_(0, _i), lambda j: forall(range_(0, len(%s)), lambda q: has(%s, nth(items_(%s), q))))" % (_OPT.format(j="j"), _EO, _OPT.format(j="j")),
+            "eo-from": "forall(%s, lambda p: exists(range_(0, _i), lambda j: has(items_(%s), p)))" % (_EO, _OPT.format(j="j")),
+        }},
+    # inner loop: the first _i required keys of this TypedDict have been appended
+    1: {"iter": "required_fields.items()",
+        "inv": {
+            "dictlike": "is_dictlike_(%s)" % _KV,
+            "keys": "forall_v(lambda key: has(%s, key) == (has(pre_loop('%s'), key) or exists(range_(0, _i), lambda q: nth(required_fields, q) is key)))" % (_KV, _KV),
+            "done": "forall(range_(0, _i), lambda q: lookup(%s, nth(required_fields, q)) is append(getd(pre_loop('%s'), nth(required_fields, q)), lookup(required_fields, nth(required_fields, q))))" % (_KV, _KV),
+            "untouched": "forall(pre_loop('%s'), lambda key: implies(not exists(range_(0, _i), lambda q: nth(required_fields, q) is key), lookup(%s, key) is lookup(pre_loop('%s'), key)))" % (_KV, _KV, _KV),
+        }},
+    # keys not required by every TypedDict become optional, with the same list of types
+    2: {"iter": "key_value_types_dict.items()",
+        "inv": {"dictlike": "is_dictlike_(optional_fields)",
+                "moved": "forall(range_(0, _i), lambda q: implies(len(lookup(%s, nth(%s, q))) != num_typed_dicts, has(optional_fields, nth(%s, q)) and lookup(optional_fields, nth(%s, q)) is lookup(%s, nth(%s, q))))" % (_KV, _KV, _KV, _KV, _KV, _KV),
+                "only": "forall(optional_fields, lambda key: has(%s, key) and len(lookup(%s, key)) != num_typed_dicts and lookup(optional_fields, key) is lookup(%s, key))" % (_KV, _KV, _KV)}},
+    # already-optional (key, type) pairs are appended to the key's list
+    3: {"iter": "existing_optional_fields",
+        "inv": {"dictlike": "is_dictlike_(optional_fields)",
+                "kept": "forall(pre_loop('optional_fields'), lambda key: has(optional_fields, key) and forall(lookup(pre_loop('optional_fields'), key), lambda x: has(lookup(optional_fields, key), x)))",
+                "added": "forall(range_(0, _i), lambda q: has(optional_fields, nth(nth(%s, q), 0)) and has(lookup(optional_fields, nth(nth(%s, q), 0)), nth(nth(%s, q), 1)))" % (_EO, _EO, _EO),
+                "keys-from": "forall(optional_fields, lambda key: has(pre_loop('optional_fields'), key) or exists(range_(0, _i), lambda q: nth(nth(%s, q), 0) is key))" % _EO,
+                "from": "forall(optional_fields, lambda key: len(lookup(optional_fields, key)) >= 1 and forall(lookup(optional_fields, key), lambda x:"
+                        " (has(pre_loop('optional_fields'), key) and has(lookup(pre_loop('optional_fields'), key), x)) or exists(range_(0, _i), lambda q: nth(nth(%s, q), 0) is key and nth(nth(%s, q), 1) is x)))" % (_EO, _EO)}},
+    "tags": {_KV: "DDict:list", _EO: "Seq[seq]", "optional_fields": "DDict:list"},
+}
+contract("monkeytype.typing:shrink_typed_dict_types", props=["C04", "C05", "C06"], theories=TH,
          params={"typed_dicts": "Seq[Ty]", "max_typed_dict_size": "Opt[int]"}, result="Ty", scc="shrink", decreases=["mdepth(typed_dicts)", "0"],
-         requires={"all-td": "forall(typed_dicts, lambda t: kind(t) is K_TD and wf_rw(t))", "nonempty": "len(typed_dicts) >= 1"},
-         ensures={"post:super": "forall(typed_dicts, lambda t: forall_val(lambda v: implies(mem(v, t), mem(v, result))))",
-                  "post:wf": "wf_rw(result) and result is not ELLIPSIS_ and result is not None"},
-         note="bounded in this round (runtime/props/c04.py); invariant sketch in DESIGN Appendix A")
+         requires={"all-td": "forall(typed_dicts, lambda t: kind(t) is K_TD and wf_rw(t))", "nonempty": "len(typed_dicts) >= 1",
+                   "k-int": "max_typed_dict_size is not None"},
+         ensures={
+             "post:kind": "kind(result) is K_TD or kind(result) is K_Dict",
+             "post:wf": "wf_rw(result) and result is not ELLIPSIS_ and result is not None",
+             # C04: every value admitted by one of the merged TypedDicts is admitted by the result
+             "post:super": "forall(typed_dicts, lambda t: forall_val(lambda v: implies(mem(v, t), mem(v, result))))",
+             # C06: a merged TypedDict never has more than k keys in total (otherwise the fallback Dict[str, V] is returned)
+             "post:size": "implies(kind(result) is K_TD, len(td_req(result)) + len(td_opt(result)) <= max_typed_dict_size)",
+             # C05: a key is required only if every merged TypedDict required it
+             "post:required-iff-all": "implies(kind(result) is K_TD, forall(td_req(result), lambda key: forall(typed_dicts, lambda t: has(td_req(t), key))))",
+         },
+         hints={
+             # ---- fallback path (Dict[str, V]): every collected type is among the types merged into V
+             "flat-has-kv": "implies(L_value_type is L_value_type, forall(L_key_value_types_dict, lambda key: forall(lookup(L_key_value_types_dict, key), lambda x: has(%s, x))))" % "flat_(concat_(values_(L_required_fields), values_(L_optional_fields)))",
+             "flat-has-eo": "implies(L_value_type is L_value_type, forall(L_existing_optional_fields, lambda p: has(%s, nth(p, 1))))" % "flat_(concat_(values_(L_required_fields), values_(L_optional_fields)))",
+             "dict-req": "forall(range_(0, len(typed_dicts)), lambda j: forall(%s, lambda key: forall_val(lambda v: implies(mem(v, lookup(%s, key)), mem(v, L_value_type)))))" % (_REQ.format(j="j"), _REQ.format(j="j")),
+             "dict-opt-idx": "forall(range_(0, len(typed_dicts)), lambda j: forall(range_(0, len(%s)), lambda q: forall_val(lambda v: implies(mem(v, nth(nth(items_(%s), q), 1)), mem(v, L_value_type)))))" % (_OPT.format(j="j"), _OPT.format(j="j")),
+             "dict-opt": "forall(range_(0, len(typed_dicts)), lambda j: forall(%s, lambda key: forall_val(lambda v: implies(mem(v, lookup(%s, key)), mem(v, L_value_type)))))" % (_OPT.format(j="j"), _OPT.format(j="j")),
+             # ---- merged-TypedDict path: relate the shrunk field dicts R', O' to the collected lists, then to each input TypedDict
+             "td-req-from": "implies(kind(result) is K_TD, forall(L_required_fields, lambda key: has(L_key_value_types_dict, key) and len(lookup(L_key_value_types_dict, key)) == len(typed_dicts)"
+                            " and forall(lookup(L_key_value_types_dict, key), lambda x: forall_val(lambda v: implies(mem(v, x), mem(v, lookup(L_required_fields, key)))))))",
+             "td-req-all": "implies(kind(result) is K_TD, forall(L_key_value_types_dict, lambda key: implies(len(lookup(L_key_value_types_dict, key)) == len(typed_dicts), has(L_required_fields, key))))",
+             "td-opt-kv": "implies(kind(result) is K_TD, forall(L_key_value_types_dict, lambda key: implies(len(lookup(L_key_value_types_dict, key)) != len(typed_dicts), has(L_optional_fields, key)"
+                          " and forall(lookup(L_key_value_types_dict, key), lambda x: forall_val(lambda v: implies(mem(v, x), mem(v, lookup(L_optional_fields, key))))))))",
+             "td-opt-eo": "implies(kind(result) is K_TD, forall(L_existing_optional_fields, lambda p: has(L_optional_fields, nth(p, 0))"
+                          " and forall_val(lambda v: implies(mem(v, nth(p, 1)), mem(v, lookup(L_optional_fields, nth(p, 0)))))))",
+             "td-opt-keys": "implies(kind(result) is K_TD, forall(L_optional_fields, lambda key: (has(L_key_value_types_dict, key) and len(lookup(L_key_value_types_dict, key)) != len(typed_dicts))"
+                            " or exists(range_(0, len(L_existing_optional_fields)), lambda q: nth(nth(L_existing_optional_fields, q), 0) is key)))",
+             "td-disjoint": "implies(kind(result) is K_TD, forall(L_required_fields, lambda key: not has(L_optional_fields, key)))",
+             "td-sup-req": "implies(kind(result) is K_TD, forall(range_(0, len(typed_dicts)), lambda j: forall(%s, lambda key:"
+                           " (has(L_required_fields, key) and forall_val(lambda v: implies(mem(v, lookup(%s, key)), mem(v, lookup(L_required_fields, key)))))"
+                           " or (not has(L_required_fields, key) and has(L_optional_fields, key) and forall_val(lambda v: implies(mem(v, lookup(%s, key)), mem(v, lookup(L_optional_fields, key))))))))" % (_REQ.format(j="j"), _REQ.format(j="j"), _REQ.format(j="j")),
+             "td-sup-opt-idx": "implies(kind(result) is K_TD, forall(range_(0, len(typed_dicts)), lambda j: forall(range_(0, len(%s)), lambda q: has(L_optional_fields, nth(nth(items_(%s), q), 0))"
+                               " and forall_val(lambda v: implies(mem(v, nth(nth(items_(%s), q), 1)), mem(v, lookup(L_optional_fields, nth(nth(items_(%s), q), 0))))))))" % ((_OPT.format(j="j"),) * 4),
+             "td-sup-opt": "implies(kind(result) is K_TD, forall(range_(0, len(typed_dicts)), lambda j: forall(%s, lambda key: has(L_optional_fields, key) and not has(L_required_fields, key)"
+                           " and forall_val(lambda v: implies(mem(v, lookup(%s, key)), mem(v, lookup(L_optional_fields, key)))))))" % (_OPT.format(j="j"), _OPT.format(j="j")),
+         },
+         loops=_STD_LOOPS)
 
 contract("monkeytype.typing:shrink_types", props=["C04", "C05", "C06", "C01"], theories=TH,
          params={"types": "Seq[Ty]", "max_typed_dict_size": "Opt[int]"}, result="Ty", scc="shrink", decreases=["mdepth(types)", "1"],
-         requires={"wf": "forall(types, lambda t: wf_rw(t) and t is not ELLIPSIS_ and t is not None)"},
+         requires={"wf": "forall(types, lambda t: wf_rw(t) and t is not ELLIPSIS_ and t is not None)", "k-int": "max_typed_dict_size is not None"},
          hints={"rewritten-wf": "forall(L_all_dict_types, lambda t: wf_rw(t) and t is not ELLIPSIS_)"},
          ensures={"post:super": _SUP, "post:wf": "wf_rw(result) and result is not ELLIPSIS_", "post:not-none": "result is not None",
                   "post:empty": "implies(len(types) == 0, result is ANY)"},
@@ -52,7 +128,7 @@ contract("monkeytype.typing:shrink_types", props=["C04", "C05", "C06", "C01"], t
 _KOK = "(max_typed_dict_size is None or max_typed_dict_size >= 0)"
 contract("monkeytype.typing:get_dict_type", props=["C04", "C05", "C06", "C03"], theories=TH,
          params={"dct": "Val", "max_typed_dict_size": "Opt[int]"}, result="Ty", scc="infer", decreases=["size(dct)", "0"],
-         requires={"exact-dict": "cls_of(dct) is CLS_dict", "val-wf": "wf_val(dct)"},
+         requires={"exact-dict": "cls_of(dct) is CLS_dict", "val-wf": "wf_val(dct)", "k-int": "max_typed_dict_size is not None"},
          hints={"td-keys": "implies(kind(result) is K_TD, forall(dct, lambda k: has(td_req(result), k) and is_strval(k)))",
                 "td-req": "implies(kind(result) is K_TD, forall(td_req(result), lambda k: has(dct, k) and mem(lookup(dct, k), lookup(td_req(result), k))))",
                 "td-opt": "implies(kind(result) is K_TD, len(td_opt(result)) == 0)"},
@@ -67,7 +143,7 @@ contract("monkeytype.typing:get_dict_type", props=["C04", "C05", "C06", "C03"], 
 
 contract("monkeytype.typing:get_type", props=["C04", "C05", "C06", "C02", "C03", "C01"], theories=TH,
          params={"obj": "Val", "max_typed_dict_size": "Opt[int]"}, result="Ty", scc="infer", decreases=["size(obj)", "1"],
-         requires={"val-wf": "wf_val(obj)"},
+         requires={"val-wf": "wf_val(obj)", "k-int": "max_typed_dict_size is not None"},
          ensures={"post:mem": "mem(obj, result)", "post:wf": "wf_rw(result) and result is not ELLIPSIS_",
                   # C05: class names are the exact runtime classes of observed values; the bare Any is never a value's type
                   "post:exact-class": "implies(kind(result) is K_Class, result is cls_of(obj))",
